@@ -13,7 +13,7 @@ use std::time::{Duration, Instant};
 
 pub static PROP: Prop = Prop {
     id: "C13",
-    rule: "cases, each in a fresh child process (so that first use is really first use): (i) held initialisation: thread A makes the process's first engine call (parse, execute, or a register_* of a fresh or a built-in name); the init probe parks A after registration stage s in {1,2,3} (only prefix operators / prefix+infix / all operators but no functions registered); 1-14 threads B then make their first calls (programs that need the missing tables: 1+2, 2 ++, min(1,2), not true, 1 in [1], - 1; registrations of fresh names and overrides of built-ins min, +, -, ++); after a grace period the harness records which B returned while A was still parked, releases A and joins everything under a watchdog; (ii) free races: 2-16 threads released by one barrier, all making first calls; (iii) registration vs evaluation: thread R re-registers name N (function / prefix / infix / postfix) alternately with handlers h1 and h2 2000-20000 times while 2-8 threads evaluate texts that use N once or twice; and a directed variant in which the first invocation of h1 parks until R has registered h2. Oracle: no panic on any thread, all threads joined within the watchdog, every result is one that some sequential order of the calls produces (fixed reference value, or - when an override of the name involved is registered concurrently - the built-in or the override result; for N: every use inside one evaluation shows the same handler, h1 or h2, never an error or another shape), a B thread that returned while A was parked must be correct, and after the join every registration made is in effect (final battery). Non-trivial: (i) at least one B needed a table that was missing while A was parked, (ii) >= 2 different call kinds raced, (iii) an evaluator thread observed both handlers; distinct by (mode, A kind, stage, B kinds / thread count / registry kind and text).",
+    rule: "cases, each in a fresh child process (so that first use is really first use): (i) held initialisation: thread A makes the process's first engine call (parse, execute, or a register_* of a fresh or a built-in name); the init probe parks A after registration stage s in {1,2,3} (only prefix operators / prefix+infix / all operators but no functions registered); 1-14 threads B then make their first calls (programs that need the missing tables: 1+2, 2 ++, min(1,2), not true, 1 in [1], - 1; registrations of fresh names and overrides of built-ins min, +, -, ++); after a grace period the harness records which B returned while A was still parked, releases A and joins everything under a watchdog; (ii) free races: 2-16 threads released by one barrier, all making first calls; (iii) registration vs evaluation: thread R re-registers name N (function / prefix / infix / postfix) alternately with handlers h1 and h2 2000-20000 times while 2-8 threads evaluate texts that use N once or twice; after the race every evaluator evaluates once more and must see the handler registered last; a directed variant in which the first invocation of h1 parks until R has registered h2; and a precedence variant in which `hi` alternates between precedence 105 and 125 while the other threads parse `1 + 2 hi 3 * 4 hi 5 + 6` (every tree must be one of the two sequential ones). Oracle: no panic on any thread, all threads joined within the watchdog, every result is one that some sequential order of the calls produces (fixed reference value, or - when an override of the name involved is registered concurrently - the built-in or the override result; for N: every use inside one evaluation shows the same handler, h1 or h2, never an error or another shape), a B thread that returned while A was parked must be correct, and after the join every registration made is in effect (final battery). Non-trivial: (i) at least one B needed a table that was missing while A was parked, (ii) >= 2 different call kinds raced, (iii) an evaluator thread observed both handlers; distinct by (mode, A kind, stage, B kinds / thread count / registry kind and text).",
     assumptions: &[
         "the harness owns only the interleavings it can force (parking A between init stages through the cfg-guarded probe; parking a handler); other interleavings are sampled by free-running repetition",
         "watchdog: 10 s against milliseconds; an expiry must reproduce on two more runs to count as a deadlock",
@@ -308,6 +308,10 @@ fn worker_regrace(doc: &J) -> J {
                     seen.push(r);
                 }
             }
+            // the last registration has returned before `stop` was set: this thread, which has
+            // used the name many times, must now see exactly that handler
+            let last = do_call(&format!("exec:{}", text), 0);
+            seen.push(format!("FINAL {}", last));
             let _ = tx.send(seen);
         });
         handles.push(rx);
@@ -319,7 +323,8 @@ fn worker_regrace(doc: &J) -> J {
     std::thread::sleep(Duration::from_millis(2));
     stop.store(true, Ordering::SeqCst);
     let per_thread: Vec<Option<Vec<String>>> = handles.into_iter().map(|rx| rx.recv_timeout(Duration::from_secs(10)).ok()).collect();
-    json!({"per_thread": per_thread, "text": text, "kind": kind, "evaluations": count.load(Ordering::Relaxed)})
+    let final_id = if iters == 0 { 1 } else { 1 + (iters % 2) };
+    json!({"per_thread": per_thread, "text": text, "kind": kind, "evaluations": count.load(Ordering::Relaxed), "final_id": final_id})
 }
 
 pub const PREC_TEXT: &str = "1 + 2 hi 3 * 4 hi 5 + 6";
@@ -671,6 +676,18 @@ fn run_regrace(kind: &str, text_idx: usize, threads: usize, iters: u64, directed
         let mut ids_seen = std::collections::BTreeSet::new();
         for r in &seen {
             let r = r.as_str().unwrap_or("");
+            if let Some(last) = r.strip_prefix("FINAL ") {
+                let want = doc["final_id"].as_i64().unwrap_or(0);
+                let ids = handler_ids(last).unwrap_or_default();
+                if ids.is_empty() || ids.iter().any(|i| *i != want) {
+                    return Err(Failure::new(
+                        format!("stale-registration:{}", kind),
+                        format!("after the last register call for `hi` had returned (handler {}), a thread that had used `hi` before still evaluated `{}` to {}", want, texts_for(kind)[text_idx], last),
+                        scenario.clone(),
+                    ));
+                }
+                continue;
+            }
             handler_ids(r).unwrap_or_default().into_iter().for_each(|i| {
                 ids_seen.insert(i);
             });
